@@ -3,61 +3,15 @@ from __future__ import annotations
 
 import json
 import os
+import sys
+
+sys.path.insert(0, os.path.dirname(os.path.abspath(__file__)))
 
 VERIF = os.path.dirname(os.path.dirname(os.path.abspath(__file__)))
 
-TECH = "Lean 4 proof over a hand-written model + differential correspondence check"
-BASE_NOTE = ("Trusted: Lean kernel (axioms ⊆ propext, Classical.choice, Quot.sound, audited every run); the hand-written model is validated "
-             "differentially (not verified) against the code on every run; harness generators; CPython str()/float()/datetime as oracles. ")
+import registry
 
-CLAIMS: dict[str, dict] = {
-    "C01": {
-        "text": "Theorems for every policy document (single or nested set, any algorithm string), configuration and request: allowed ⇔ effect=permit; an "
-                "allowed decision is backed by an applicable non-deny rule of the document carrying exactly the returned obligations, all met per the "
-                "built-in checker; nothing applicable ⇒ deny. Proved by loop/tree invariants (induction over rule lists and set trees, early breaks "
-                "included) through the compiled path and the interpreter fall-back. Tie: real Guard (5 API flavours, random collaborators) vs model on "
-                "(allowed, effect), and the statement itself (Rbacx.Spec.c01) evaluated in Lean on the implementation's decision.",
-        "design_ref": "DESIGN.md §5 C01", "note": BASE_NOTE, "technique": TECH},
-    "C02": {
-        "text": "Lean theorems (induction over the rule list, any length/order/outcome pattern) that the modelled reference evaluator "
-                "computes exactly the documented deny-overrides / permit-overrides / first-applicable result; the model is tied to "
-                "rbacx.core.policy.evaluate and rbacx.core.policyset.decide on every run by an exhaustive small-scope + random differential "
-                "run, and the independent combining spec (incl. nested sets, deciding child id) is evaluated on the implementation's own output.",
-        "design_ref": "DESIGN.md §5 C02",
-        "note": BASE_NOTE + "Set-level statement: checked by the spec predicate on every case; Lean proofs cover single policies (set theorem: see DESIGN §8).",
-        "technique": TECH},
-    "C04": {
-        "text": "Theorems over every operator, operand pair, environment and oracle: a Boolean result only inside the documented typing table (ordering: "
-                "numbers only, never booleans/strings; time: instants only, strict ⇒ aware datetimes; string and collection operators on their kinds; "
-                "equality kind-strict up to the numeric tower), between inclusive, and/or short-circuit left to right, not, null-absorbing paths, type "
-                "mismatch local to the rule. Tie: exhaustive operator × 30×30 operand-kind cells × lax/strict × literal/attribute placement + random "
-                "nested trees against eval_condition.",
-        "design_ref": "DESIGN.md §5 C04", "note": BASE_NOTE + "Domain: no getattr path segments; no NaN inside containers.", "technique": TECH},
-    "C05": {
-        "text": "Theorems characterising the matcher declaratively (actions; type / id / attribute checks as ∃/∀ statements; strict mode never matches "
-                "through string forms; the engine's strict flag reaches the matcher on the reference, compiled and set paths). Tie: exhaustive target × "
-                "resource cells × lax/strict × 5 real paths (matcher, legacy flag, Guard single, Guard set, compile).",
-        "design_ref": "DESIGN.md §5 C05", "note": BASE_NOTE + "Strict equality is Python == (True/1/1.0 identified) — stated interpretation.", "technique": TECH},
-    "C06": {
-        "text": "Theorem c06_total: for every well-formed document (docWF = what the bundled schema guarantees; every schema-accepted generated document "
-                "is checked against it each run), every request over the value universe and every configuration, evaluation returns a decision with "
-                "effect ∈ {permit, deny}, allowed ⇔ permit and a documented reason; operators fail only with a type mismatch (structural induction over "
-                "the condition tree, rule list and set tree). Tie: grammar + mutation documents filtered by the real schema, JSON/YAML round trips, "
-                "hostile requests through the real Guard.",
-        "design_ref": "DESIGN.md §5 C06", "note": BASE_NOTE + "Quantifier reading: roles list|null, attrs/context object|null.", "technique": TECH},
-    "C07": {
-        "text": "Theorems: checker verdict positive iff no permit-targeted obligation unmet; challenge = that of the first unmet one; one theorem per row "
-                "of the documented table (truthiness rows, level, re-auth, consent, http challenge, unknown types / other effects ignored, non-numbers "
-                "unmet); engine gate (allowed=false, deny, obligation_failed, challenge) for built-in and custom negative verdicts; a deny is never "
-                "lifted. Tie: full cross product of obligation shapes × context values × pairs, through the checker and through Guard (sync/async).",
-        "design_ref": "DESIGN.md §5 C07", "note": BASE_NOTE + "float(str) is an oracle.", "technique": TECH},
-    "C20": {
-        "text": "Theorems about the middleware model composed with the engine model: downstream ⇔ allowed (enforce+http+builder), otherwise exactly "
-                "[start 403, generic body], body independent of the decision, diagnostics only as X-RBACX-* headers when enabled, errors block "
-                "downstream, pass-through otherwise, obligation-failed permit ⇒ 403. Tie: raw ASGI calls on the real middleware + real Guard; full action "
-                "list compared.",
-        "design_ref": "DESIGN.md §5 C20", "note": BASE_NOTE, "technique": TECH},
-}
+CLAIMS: dict[str, dict] = {pid: d["claim"] for pid, d in registry.load_claims().items() if d.get("claim")}
 
 ALL = [f"C{i:02d}" for i in range(1, 21)]
 
